@@ -86,9 +86,17 @@ type Mutation struct {
 	Kind string `json:"kind"` // none | prefix | tokdel | tokdup | tokrep | insert
 	A    int    `json:"a,omitempty"`
 	Text string `json:"text,omitempty"`
+	// a second insertion (offset in the text after the first), kind insert only
+	B     int    `json:"b,omitempty"`
+	Text2 string `json:"text2,omitempty"`
 }
 
-func (m Mutation) String() string { return fmt.Sprintf("%s(%d,%q)", m.Kind, m.A, m.Text) }
+func (m Mutation) String() string {
+	if m.Text2 != "" {
+		return fmt.Sprintf("%s(%d,%q)+insert(%d,%q)", m.Kind, m.A, m.Text, m.B, m.Text2)
+	}
+	return fmt.Sprintf("%s(%d,%q)", m.Kind, m.A, m.Text)
+}
 
 // Apply returns the mutated text and the byte offset of the edit point.
 func (m Mutation) Apply(src string) (string, int) {
@@ -101,10 +109,22 @@ func (m Mutation) Apply(src string) (string, int) {
 		}
 		return src[:m.A], m.A
 	case "insert":
-		if m.A > len(src) {
-			return src + m.Text, len(src) + len(m.Text)
+		a := m.A
+		if a > len(src) {
+			a = len(src)
 		}
-		return src[:m.A] + m.Text + src[m.A:], m.A + len(m.Text)
+		out, edit := src[:a]+m.Text+src[a:], a+len(m.Text)
+		if m.Text2 != "" {
+			b := m.B
+			if b > len(out) {
+				b = len(out)
+			}
+			out = out[:b] + m.Text2 + out[b:]
+			if b <= edit {
+				edit += len(m.Text2)
+			}
+		}
+		return out, edit
 	case "tokdel", "tokdup", "tokrep":
 		toks, _ := hclsyntax.LexConfig([]byte(src), "x", hcl.InitialPos)
 		if m.A >= len(toks) {
